@@ -257,6 +257,15 @@ func c16Triples(c *Ctx, n int) []c16Triple {
 			ts = append(ts, c16Triple{qc[0], schema, qc[1], "dotted-step-ids", nil})
 		}
 	}
+	// schemas that declare HIDDEN DEFINITIONS (`_#name`), at the root, inside a step and inside the element of a list: every struct whose
+	// fields get listed
+	{
+		schema := "_#unit: \"kg\" | \"lb\"\n_#address: {street: string}\n#Pub: {x: int}\ninput: {\n\tname: string\n\t_#inner: {v: string}\n\taddr: _#address\n\tunit: _#unit\n\trows: [...{v: string, _#el: int, w: #Pub}]\n\t_dependencies: []\n}\nstep1: {\n\tout: string\n\t_#t: bool\n\t_dependencies: [\"input\"]\n}\n"
+		for _, qc := range [][2]string{{"$.input.name", ""}, {"$.input", ""}, {"$.input.addr.street", ""}, {"$.input.unit", "step1"}, {"$.input.rows[@.v.Equal(\"x\")]", ""}, {"$.input.rows.First().w.x", "step1"}, {"$.step1.out", ""},
+			{"$.input.rows.Count()", "step1"}, {"{AND,$.input.name.IsNull()}", ""}, {"$", ""}, {"$.input.nosuch", ""}, {"$.input._#inner", ""}} {
+			ts = append(ts, c16Triple{qc[0], schema, qc[1], "hidden-definitions", nil}, c16Triple{qc[0], schema, qc[1], "hidden-definitions", nil})
+		}
+	}
 	// literals that hold an escaped backslash in front of a letter that has an escape of its own (`"C:\\temp"`): each text has one
 	// answer, the one a fresh process gives, however often and in whatever order the query is parsed
 	{
